@@ -246,7 +246,8 @@ inline void account(const Options& o, Tally& tally, const std::string& text, con
          if (++tally.excluded_hits[f.signature] == 1) tally.excluded_example[f.signature] = f.message;
          continue;
       }
-      std::string path = (o.replay_dir.empty() ? std::string(".") : o.replay_dir) + "/" + sanitize(f.signature) + ".case";
+      // one file per (signature, shard): shards of one run share the directory and may find the same signature at the same time
+      std::string path = (o.replay_dir.empty() ? std::string(".") : o.replay_dir) + "/" + sanitize(f.signature) + ".s" + std::to_string(o.shard) + ".case";
       write_file(path, text);
       tally.violations.push_back({f.signature, f.message, path});
       tally.excluded.insert(f.signature);
@@ -398,7 +399,7 @@ int drive(int argc, char** argv, const char* prop, Hooks<Case> hk)
       auto result = rc::detail::checkTestable(body, meta, params);
       if (result.template is<rc::detail::SuccessResult>()) break;
       if (result.template is<rc::detail::FailureResult>() && !target.empty()) {
-         std::string path = (o.replay_dir.empty() ? std::string(".") : o.replay_dir) + "/" + sanitize(target) + ".case";
+         std::string path = (o.replay_dir.empty() ? std::string(".") : o.replay_dir) + "/" + sanitize(target) + ".s" + std::to_string(o.shard) + ".case";
          write_file(path, hk.to_text(last_fail));
          tally.violations.push_back({target, last_msg, path});
          std::fprintf(stderr, "[%s] new signature %s -- %s\n", prop, target.c_str(), last_msg.c_str());
